@@ -1,6 +1,7 @@
 import RustCcModel.Proofs.CtlSimp
 import RustCcModel.Proofs.InvReach
 import RustCcModel.Proofs.Untouched
+import RustCcModel.Proofs.CycFresh
 /-! # C14 — `new_cyclic`: Weak dead until initialised; uninitialised data never touched -/
 namespace RustCc.C14
 open World
@@ -90,5 +91,15 @@ theorem released_never_touched (c : Cfg) (nH nW nK : Nat) (w : World) (h : Reach
     rw [hd] at this; cases this
   · have hr : (w.heap id).rc = 0 := ((reachable_all c nH nW nK w h).inv.oi.dead id hd).1
     exact closure_weak_dead w id hr
+
+/-- **Nobody touches the fields of the value under construction**: in every reachable world, for as long as the closure
+runs, the weak fields of the new object are all still empty, no finalizer / destructor script runs with the object as
+`self`, and no drop glue works on its fields. -/
+theorem under_construction_fields_untouched (c : Cfg) (nH nW nK : Nat) (w : World) (h : Reachable c nH nW nK w)
+    (k : Nat) (id : Id) (sp : NewSpec) (selfw : Option Nat) (hf : Frame.newCyclicEnd k id sp selfw ∈ w.stack) :
+    (w.heap id).wslots = List.replicate sp.nw none ∧ ∀ g ∈ w.stack, g.selfId ≠ some id := by
+  have hcf := reachable_cf h
+  refine ⟨hcf.fresh k id sp selfw hf, fun g hg e => ?_⟩
+  exact hcf.snc g hg id e (mem_cycs_of_frame hf)
 
 end RustCc.C14
